@@ -19,8 +19,12 @@ def gen_program(r, max_threads=10):
 
         def filler(n):
             for _ in range(n):
-                k = r.below(6)
-                if k == 0:
+                k = r.below(7)
+                if k == 6:
+                    # work-stealing API from a user thread: pop the own top and pass it to some worker
+                    # ("passed to another worker" of C02); usually right after a parent-first creation
+                    ops.append("poppass %d" % r.below(4))
+                elif k == 0:
                     ops.append("yield")
                 elif k == 1:
                     ops.append("yield %d" % r.below(5))
@@ -66,10 +70,50 @@ def gen_program(r, max_threads=10):
     return threads, adds[0]
 
 
+def gen_pass_program(r):
+    """the situation of the repaired defect 946f4d6 and its neighbours: a thread handed to ANOTHER worker's run queue
+    with the work-stealing API while threads on that worker are about to finish / yield / block / join, so that the
+    passed thread is dispatched by every dispatch path of the target worker (thread exit, yield, block, scheduler)"""
+    threads = {0: []}
+    nlong = 1 + r.below(2)
+    ops = []
+    tag = 1
+    longs = []
+    for _ in range(nlong):                       # long-running children: they run first (child-first), main is stolen
+        body = []
+        for _ in range(2 + r.below(6)):
+            body.append(r.choice(["nop", "nop", "yield", "lock m0 ; add x0 1 ; unlock m0"]))
+        threads[tag] = [o for b in body for o in b.split(" ; ")]
+        ops.append("create %d" % tag)
+        longs.append(tag)
+        tag += 1
+    adds = sum(1 for t in longs for o in threads[t] if o.startswith("add"))
+    short = []
+    for _ in range(1 + r.below(3)):              # short children created parent-first, then popped and passed
+        threads[tag] = [r.choice(["nop", "yield", "nop ; nop"])] if r.chance(2, 3) else []
+        threads[tag] = [o for b in threads[tag] for o in b.split(" ; ")]
+        ops.append("create %d pf" % tag)
+        ops.append("poppass %d" % r.below(4))
+        for _ in range(r.below(3)):
+            ops.append("nop")
+        short.append(tag)
+        tag += 1
+    js = longs + short
+    r.shuffle(js)
+    ops += ["join %d" % t for t in js]
+    threads[0] = ops
+    return threads, adds
+
+
 def gen_cases(ctx, n):
     r = ctx.rng
     cases = []
     for i in range(n):
+        if i % 3 == 2:
+            threads, adds = gen_pass_program(r)
+            cases.append((trace.case_text(r.choice([2, 2, 3, 4]), r.next() % 1000000 + 1, ["m0 mutex", "x0 var 0"], threads,
+                                          pswitch=r.choice([20, 35, 60, 85]), extra={"msnap": "1"}), adds))
+            continue
         threads, adds = gen_program(r)
         nw = r.choice([1, 2, 2, 3, 4])
         ps = r.choice([20, 35, 60, 85])
